@@ -32,7 +32,7 @@ def run(ctx):
     rt, mp, rc = ctx.path("route.ndjson"), ctx.path("maps.ndjson"), ctx.path("races.ndjson")
     out = ctx.harness(binary, ["-plans", pdir, "-out", rt, "-maps", mp, "-races", rc, "-seed", ctx.seed,
                                "-nrace", ctx.q(4000, 80000), "-nracekeep", ctx.q(900, 20000),
-                               "-nrand", ctx.q(16, 120), "-nextra", ctx.q(2, 24),
+                               "-nroutecold", ctx.q(150, 3000), "-nrand", ctx.q(16, 120), "-nextra", ctx.q(2, 24),
                                "-hist", ctx.q(150, 4000), "-maxops", ctx.q(60, 200)],
                       traces=[rt, mp, rc])
     # 4. validate what the real code did
@@ -40,7 +40,8 @@ def run(ctx):
     maps = ctx.load_traces(mp)
     races = ctx.load_traces(rc)
     rj = ctx.validate(fam, "Shard_Trace", "Shard_Trace.cfg", route, label="routing", chunk=12000)
-    rj += ctx.validate(fam, "Shard_Trace", "Shard_Trace.cfg", maps, label="containers", chunk=30000)
+    rj += ctx.validate(fam, "Shard_Trace", "Shard_Trace.cfg", maps, label="containers", chunk=30000,
+                       max_rejections=14)
     rj += ctx.validate(fam, "Shard_Trace", "Shard_Trace.cfg", races, label="races", chunk=20000)
     # sharded key lockers and semaphore maps must answer lock requests as the unsharded ones: the
     # schedules of C02 / C01 are replayed on the sharded variants only and judged by their trace specs
